@@ -152,7 +152,7 @@ func C15(p *core.Program, r *core.Report) {
 		r.Add("A2", "title length gate: more than 150 characters", p.Pos(ex.Pos()), atoms[`utf8.RuneCountInString(`+title+`) <= 150`], "counted with utf8.RuneCountInString on the <title> text")
 		r.Add("A2", "title length gate: fewer than 15 characters", p.Pos(ex.Pos()), atoms[`utf8.RuneCountInString(`+title+`) <= 14`], "")
 		sepColon := atoms[`strings.Index(`+title+`,": ") == -1`] || atoms[`strings.Contains(`+title+`,": ")`]
-		r.Add("A2", "separator test on the <title> text", p.Pos(ex.Pos()), atoms[`regexp.Regexp.MatchString(extractor.rxTitleSeparator,`+title+`)`] && sepColon, "")
+		r.Add("A2", "separator test on the <title> text", p.Pos(ex.Pos()), atoms[`regexp.Regexp.MatchString(`+rxTitleSep+`,`+title+`)`] && sepColon, "")
 		nPlain, bad := 0, 0
 		for _, pa := range feasible {
 			lit := map[string]int{}
@@ -160,7 +160,7 @@ func C15(p *core.Program, r *core.Report) {
 				lit[l.Atom] = tern(l.Val)
 			}
 			noColon := lit[`strings.Index(`+title+`,": ") == -1`] == 1 || lit[`strings.Contains(`+title+`,": ")`] == -1
-			if lit[`regexp.Regexp.MatchString(extractor.rxTitleSeparator,`+title+`)`] == -1 && noColon &&
+			if lit[`regexp.Regexp.MatchString(`+rxTitleSep+`,`+title+`)`] == -1 && noColon &&
 				lit[`utf8.RuneCountInString(`+title+`) <= 150`] == 1 && lit[`utf8.RuneCountInString(`+title+`) <= 14`] == -1 {
 				nPlain++
 				if lit[`dom.QuerySelector($0.‹*html.Node›,"h1") == nil`] != 0 {
@@ -179,8 +179,6 @@ func C15(p *core.Program, r *core.Report) {
 		}
 		r.Add("A1", "Result.Title is the extractor's first candidate", p.Pos(ap.Pos()), ok, "")
 	}
-	lits := regexpLiterals(p, "internal/extractor")
-	r.Add("A2", "separator pattern is the reviewed one", "", lits["rxTitleSeparator"] == `(?i) [\|\-\\/>»] `, fmt.Sprintf("%q", lits["rxTitleSeparator"]))
 
 	// ---- A3
 	norm := func(leaf string) string {
@@ -272,7 +270,9 @@ func C15(p *core.Program, r *core.Report) {
 	}
 	// the candidates given to the matcher are the extractor's candidate titles
 	if ec := mustInl(p, r, "A3", "(*"+extractorPkg+".ContentExtractor).ExtractContent"); ec != nil {
-		calls := core.Calls(ec, func(ci ssa.CallInstruction) bool { return core.IsCallTo(ci, "(*"+extractorPkg+".ArticleExtractor).Extract") })
+		calls := core.Calls(ec, func(ci ssa.CallInstruction) bool {
+			return core.IsCallTo(ci, "(*"+extractorPkg+".ArticleExtractor).Extract")
+		})
 		ok := len(calls) > 0
 		for _, call := range calls {
 			if c.Of(call.Common().Args[3]) != cand {
